@@ -71,6 +71,8 @@ type Exec struct {
 
 	prefix  []int   // decisions to replay
 	trail   []int   // decisions taken on this path
+	rangeLo map[*Term]bool // integer terms asserted >= 0 on this path
+	rangeHi map[*Term]int  // integer terms asserted < 2^k on this path
 	pending [][]int // alternative prefixes discovered on this path
 
 	Inputs    []*Term // declared symbolic inputs
@@ -113,7 +115,7 @@ type Exec struct {
 }
 
 func newExec(L *Loaded, init *InitState, cfg *RunConfig, solver *Solver) *Exec {
-	return &Exec{L: L, Solver: solver, Cfg: cfg, globals: map[*ssa.Global]*Cell{}, InputMeta: map[string]InputMeta{}, init: init}
+	return &Exec{L: L, Solver: solver, Cfg: cfg, globals: map[*ssa.Global]*Cell{}, InputMeta: map[string]InputMeta{}, init: init, rangeLo: map[*Term]bool{}, rangeHi: map[*Term]int{}}
 }
 
 type hashApp struct {
@@ -143,8 +145,10 @@ func (e *Exec) branch(c *Term) bool {
 		e.trail = append(e.trail, e.prefix[pos])
 		if d {
 			e.Solver.Assert(c)
+			e.noteRange(c)
 		} else {
 			e.Solver.Assert(Not(c))
+			e.noteRange(Not(c))
 		}
 		return d
 	}
@@ -175,17 +179,77 @@ func (e *Exec) branch(c *Term) bool {
 		e.pending = append(e.pending, alt)
 		e.trail = append(e.trail, 1)
 		e.Solver.Assert(c)
+		e.noteRange(c)
 		return true
 	case tOK:
 		e.trail = append(e.trail, 1)
 		e.Solver.Assert(c)
+		e.noteRange(c)
 		return true
 	case fOK:
 		e.trail = append(e.trail, 0)
 		e.Solver.Assert(Not(c))
+		e.noteRange(Not(c))
 		return false
 	}
 	panic(abortf("INFEASIBLE both branches infeasible"))
+}
+
+// noteRange records, from a condition just asserted on this path, which integer terms are
+// now known to lie in [0, 2^k): later conversions of such a term to a k-bit word keep their
+// arithmetic and comparisons in the integer theory (see knownNat / intBacked).
+func (e *Exec) noteRange(c *Term) {
+	var conj []*Term
+	if c.Op == "and" {
+		conj = c.Args
+	} else {
+		conj = []*Term{c}
+	}
+	for _, a := range conj {
+		op := a.Op
+		if op == "not" && len(a.Args) == 1 { // not(x < c) = x >= c, ...
+			if neg, ok := map[string]string{"<": ">=", ">=": "<", ">": "<=", "<=": ">"}[a.Args[0].Op]; ok {
+				a = &Term{Op: neg, S: BoolSort, Args: a.Args[0].Args}
+			}
+		}
+		if len(a.Args) != 2 || a.Args[0].S.K != SInt {
+			continue
+		}
+		x, y := a.Args[0], a.Args[1]
+		switch {
+		case a.Op == ">" && y.IsConst() && y.C.Sign() >= 0: // x > c, c >= 0
+			e.rangeLo[x] = true
+		case a.Op == ">=" && y.IsConst() && y.C.Sign() >= 0: // x >= c, c >= 0
+			e.rangeLo[x] = true
+		case a.Op == "<=" && x.IsConst() && x.C.Sign() >= 0: // c <= y
+			e.rangeLo[y] = true
+		case a.Op == "<" && y.IsConst() && y.C.Sign() > 0: // x < c
+			if k := new(big.Int).Sub(y.C, bigOne).BitLen(); e.rangeHi[x] == 0 || k < e.rangeHi[x] {
+				e.rangeHi[x] = max(k, 1)
+			}
+		case a.Op == "<=" && y.IsConst() && y.C.Sign() >= 0: // x <= c
+			if k := y.C.BitLen(); e.rangeHi[x] == 0 || k < e.rangeHi[x] {
+				e.rangeHi[x] = max(k, 1)
+			}
+		}
+	}
+}
+
+// knownNat returns t, or a copy of it flagged as lying in [0, 2^k) when the path condition
+// asserted so far says it does (k <= w). Per-harness switch (range_facts in props.json): it
+// decides the multiply/divide chains of the locking power formula in milliseconds where the
+// mixed encoding is undecided after minutes, but makes the signed 64-bit checks on reported
+// validator powers harder, so it is only enabled where it was measured to help.
+func (e *Exec) knownNat(w int, t *Term) *Term {
+	if t.IsConst() || natW(t) > 0 || !e.Cfg.RangeFacts {
+		return t
+	}
+	if k := e.rangeHi[t]; e.rangeLo[t] && k > 0 && k <= w {
+		tt := *t
+		tt.NatW = k
+		return &tt
+	}
+	return t
 }
 
 // choose forks over n alternatives without consulting the solver.
@@ -218,6 +282,7 @@ func (e *Exec) assume(c *Term) {
 		return
 	}
 	e.Solver.Assert(c)
+	e.noteRange(c)
 }
 
 func (e *Exec) freshVar(prefix string, s Sort) *Term {
